@@ -710,3 +710,188 @@ def gen_C14(tier, rng):
 
 
 GENERATORS.update({"C12": gen_C12, "C13": gen_C13, "C14": gen_C14})
+
+
+# ------------------------------------------------------------------ C16 / C17 / C18 (CSV, rendering)
+FALSE_SP = ["0", "F", "false", "False"]; TRUE_SP = ["1", "T", "true", "True"]
+SCHEMES = [lambda i, j: 0, lambda i, j: 1, lambda i, j: 2, lambda i, j: 3, lambda i, j: (i + 2 * j) % 4, lambda i, j: (3 * i + j + 1) % 4]
+
+
+def csv_text(names, rows, header, eol="\n", last_eol=True, result="result"):
+    lines = ([",".join(list(names) + [result])] if header else []) + [",".join(r) for r in rows]
+    return eol.join(lines) + (eol if last_eol else "")
+
+
+def spelled(rows, scheme):
+    return [[(TRUE_SP if b else FALSE_SP)[scheme(i, j)] for j, b in enumerate(r)] for i, r in enumerate(rows)]
+
+
+def csv_mutations(names, rows, header):
+    lines = ([list(names) + ["result"]] if header else []) + [list(r) for r in rows]
+    fd = 1 if header else 0
+    def txt(ls, eol="\n", last=True): return eol.join(",".join(l) for l in ls) + (eol if last else "")
+    yield "valid", txt(lines)
+    for i in range(fd, len(lines)):
+        yield "drop_row", txt(lines[:i] + lines[i + 1:])
+        yield "dup_row", txt(lines[:i] + [lines[i]] + lines[i:])
+        for j in range(fd, len(lines)):
+            if i != j:
+                l2 = list(lines); l2[i] = lines[j]; yield "replace_row", txt(l2)
+                if i < j:
+                    l3 = list(lines); l3[i], l3[j] = l3[j], l3[i]; yield "swap_rows", txt(l3)
+        for c in range(len(lines[i])):
+            l2 = [list(l) for l in lines]; del l2[i][c]; yield "drop_cell", txt(l2)
+            l2 = [list(l) for l in lines]; l2[i].insert(c, "1"); yield "add_cell", txt(l2)
+            for bad in ("2", "", "x", "TRUE", " 1", "1 ", "tru", "falſe"):
+                l2 = [list(l) for l in lines]; l2[i][c] = bad; yield "corrupt_cell", txt(l2)
+            l2 = [list(l) for l in lines]; l2[i][c] = '"' + l2[i][c] + '"'; yield "quoted_cell", txt(l2)
+    if header:
+        for c in range(len(names)):
+            for d in range(len(names)):
+                if c != d:
+                    l2 = [list(l) for l in lines]; l2[0][c] = l2[0][d]; yield "dup_header", txt(l2)
+        for v in ("0", "1", "T", "true", "False", "TRUE", "", "result "):
+            l2 = [list(l) for l in lines]; l2[0][-1] = v; yield "output_name", txt(l2)
+        for c in range(len(names)):
+            for v in ("", "0", "true", "a b", '"q,r"', '"l1\nl2"', '"d""q"', 'x"y', " a", "é", "漢"):
+                l2 = [list(l) for l in lines]; l2[0][c] = v; yield "header_cell", txt(l2)
+    for tag, t in [("blank_lines", txt(lines) + "\n\n"), ("blank_lines", "\n\n" + txt(lines)), ("blank_lines", txt(lines, "\n\n")),
+                   ("crlf", txt(lines, "\r\n")), ("crlf", txt(lines, "\r\n", False)), ("cr", txt(lines, "\r")), ("cr", txt(lines, "\n\r")),
+                   ("no_final_eol", txt(lines, "\n", False)), ("trailing_ws", txt(lines) + " "), ("trailing_ws", txt(lines) + " \n"),
+                   ("leading_ws", " " + txt(lines)), ("bom", "﻿" + txt(lines)), ("bom", "﻿﻿" + txt(lines)),
+                   ("stray", txt(lines) + ","), ("stray", txt(lines) + '"'), ("stray", txt(lines, ",\n")),
+                   ("other_delim", txt(lines).replace(",", ";")), ("stray", txt(lines).replace(",", ",,", 1))]:
+        yield tag, t
+
+
+def gen_C16(tier, rng):
+    texts = []; dist = collections.Counter(); seen = set()
+    def add(t, tag, nt=True):
+        if t in seen: return
+        seen.add(t); texts.append((t, nt)); dist[tag] += 1
+    NAMES_ = {0: [], 1: ["a"], 2: ["a", "b"]}
+    for n in (0, 1, 2):
+        pts = list(itertools.product([0, 1], repeat=n))
+        for outs in itertools.product([0, 1], repeat=2 ** n):
+            base = [list(p) + [o] for p, o in zip(pts, outs)]
+            for cperm in itertools.permutations(range(n)):
+                names = [NAMES_[n][c] for c in cperm]
+                rows_c = [[r[c] for c in cperm] + [r[-1]] for r in base]
+                for rperm in itertools.permutations(range(len(rows_c))):
+                    rows = [rows_c[i] for i in rperm]
+                    for header in (True, False):
+                        for k, sch in enumerate(SCHEMES):
+                            if n == 2 and (tier == "quick") and (sum(rperm[:2]) + k + sum(outs)) % 4: continue
+                            add(csv_text(names, spelled(rows, sch), header, last_eol=(k % 2 == 0)), "perm_vars%d" % n, n >= 1)
+    pts = list(itertools.product([0, 1], repeat=3))
+    for _ in range(150 if tier == "quick" else 3000):
+        outs = [rng.randint(0, 1) for _ in range(8)]
+        names = rng.sample(["a", "b", "c"], 3) if rng.random() < .7 else rng.sample(["x_2", "x_10", "x_1"], 3)
+        rows = [list(p) + [o] for p, o in zip(pts, outs)]; rng.shuffle(rows)
+        add(csv_text(names, spelled(rows, rng.choice(SCHEMES)), rng.random() < .6, last_eol=rng.random() < .5), "three_vars_sampled")
+    pts4 = list(itertools.product([0, 1], repeat=4))
+    rows = [list(p) + [rng.randint(0, 1)] for p in pts4]; rng.shuffle(rows)
+    add(csv_text([], spelled(rows, SCHEMES[0]), False), "headerless_4")
+    for n, names in ((1, ["a"]), (2, ["b", "a"]), (2, ["x_0", "x_1"])):
+        pts = list(itertools.product([0, 1], repeat=n))
+        for outs in ([0, 1, 1, 0][: 2 ** n], [1] * 2 ** n):
+            rows = spelled([list(p) + [o] for p, o in zip(pts, outs)], SCHEMES[4])
+            for header in (True, False):
+                for tag, t in csv_mutations(names, rows, header): add(t, "mut_" + tag)
+    for ncol in (1, 2, 62, 63, 64, 65, 66, 70, 130):
+        hdr = ",".join(["v%d" % i for i in range(ncol - 1)] + ["result"])
+        for t in (hdr, hdr + "\n", hdr + "\n" + ",".join(["1"] * ncol) + "\n", ",".join(["1"] * ncol) + "\n",
+                  ",".join(["1"] * ncol) + "\n" + ",".join(["0"] * ncol) + "\n", hdr + "\n" + ",".join(["1"] * (ncol - 1) + ["x"]) + "\n"):
+            add(t, "wide_header")
+    ALPH = ["0", "1", ",", ",", "\n", "\n", "\r", '"', " ", "T", "F", "a", "b", "x", "_", "true", "false", "result", "﻿", "é", "\t", "0,1", "1,0\n", "0,0\n", "a,r\n"]
+    for _ in range(1500 if tier == "quick" else 20000):
+        add("".join(rng.choice(ALPH) for _ in range(rng.randint(0, 14))), "random_text")
+    for s_ in ["", "\n", "\r", " ", ",", '"', '""', "1", "0\n", "T\nF", "r", "r\n1", "r\n1\n0", "1\n1", '"1"', '"1', '1"', "0,1\n1,0\n", "a,r\n0,1\n0,0\n",
+               "a,r\n0,1\n1,0\n\n\n", "a,b,result", "x_1,x_0,r\n0,1,1\n1,0,0\n0,0,0\n1,1,1", '"x\ny",r\n0,1\n1,1', '"a,b",r\n0,1\n1,0']:
+        add(s_, "special")
+    cases = []
+    for k in range(0, len(texts), 25):
+        c = Case("c16_%d" % (k // 25)); nt = False
+        for t, f in texts[k:k + 25]:
+            for w in ("str", "file"):
+                r = c.r("csvin %s %s" % (w, hexname(t))); c.q("obs %d" % r)
+            nt = nt or f
+        cases.append(c.done(c.id, nt))
+    return {"cases": cases, "exhaustive": True, "dist": dict(dist),
+            "rule": "every table of <= 2 variables x every column permutation x every row permutation x header present/absent x six per-cell spelling schemes (quick: a quarter of the 2-variable ones); sampled 3-variable tables with shuffled rows; every single-fault mutation of six base files (drop / duplicate / replace / swap a row, drop / add / corrupt / quote a cell, duplicate header name, Boolean spelling as output name, odd header cells, blank lines, CRLF / CR, BOM, stray delimiters); header-only and data texts with 1..130 columns; random text; each text through from_csv_string AND from_csv_file; accept/reject and error variant compared with the model (proved: accepted iff the records describe a complete unambiguous table), the imported table with the table the records describe; %d texts; non-trivial = at least one variable; distinct = text" % len(texts)}
+
+
+def table_regs(c, names, tv):
+    """a table with exactly these input names and this truth vector"""
+    e = gen.expr_of_tv(sorted(names), tv, "dnf")
+    r0 = c.r("expr " + pe(e)); return c.r("conv T %d" % r0)
+
+
+FMT = "NCWK"
+
+
+def gen_C17(tier, rng):
+    cases = []; dist = collections.Counter(); n_ = 0
+    namesets = [["a", "b", "c", "d"], ["x_0", "x_1", "x_10", "x_2"], sorted(["é", "漢", "ü", "ñ"]), sorted(["longvariablename1", "q", "zz", "k9"])]
+    maxv = 3 if tier == "quick" else 4
+    for nv in range(0, maxv + 1):
+        for tv in gen.all_tvs(nv):
+            for k, ns in enumerate(namesets):
+                if nv == 0 and k: continue
+                if nv >= 3 and (int(tv, 2) + k) % (5 if tier == "quick" else 3): continue
+                c = Case("c17_%d" % n_); n_ += 1
+                t = table_regs(c, ns[:nv], tv)
+                for fi in FMT:
+                    for fo in FMT:
+                        c.q("csvout %d %s %s" % (t, fi, fo))
+                c.q("csvdef %d" % t)
+                dist["vars%d_names%d" % (nv, k)] += 1
+                cases.append(c.done("%d/%s/%d" % (nv, tv, k), True))
+    c = Case("c17_empty"); t = c.r("csvin str -"); c.q("csvout %d W K" % t); c.q("csvdef %d" % t); c.q("obs %d" % t)
+    cases.append(c.done("empty", True)); dist["empty_table"] += 1
+    for ns in (["a,b"], ['a"b'], ['"ab"'], ["a\nb"], [" a "], ["﻿a"], ["0"], ["1", "true"]):
+        for tv in gen.all_tvs(len(ns)):
+            c = Case("c17_%d" % n_); n_ += 1
+            t = table_regs(c, ns, tv); c.q("csvout %d N N" % t); c.q("csvout %d W C" % t)
+            dist["unsafe_names_modelonly"] += 1
+            cases.append(c.done("unsafe/%s/%s" % (ns, tv), False))
+    return {"cases": cases, "exhaustive": tier != "quick", "dist": dict(dist),
+            "rule": "every truth function of <= %d variables (3+ variables: every %s) over four name sets (ASCII, x_i with x_10 < x_2, non-ASCII, long) x all 16 input/output Boolean formattings + the default to_csv: exported text compared byte for byte with the model, re-import compared with the table itself (C17_round_trip) ; the empty table; names that are not csv-safe (comma, quote, line break, BOM, Boolean spelling) compared with the model only; non-trivial = csv-safe names; distinct = (function, name set)" % (maxv, "fifth" if tier == "quick" else "third")}
+
+
+def gen_C18(tier, rng):
+    cases = []; dist = collections.Counter(); n_ = 0
+    namesets = [["a", "b", "c"], sorted(["é", "漢", "ü"]), sorted(["x́y", "ＷＩＤＥ", "k"]), sorted(["longvariablename1", "q", "r"]), sorted(["ěýáíé", "ščřžň", "ö"]),
+                sorted(["c-d", "e_f", "+-"])]
+    unclean = [sorted(["a b", "c"]), sorted(["l1\nl2", "z"]), sorted(["", "k"]), sorted(["|", "│"])]
+    for nv in range(0, 4):
+        for tv in gen.all_tvs(nv):
+            for k, ns in enumerate(namesets):
+                if nv == 0 and k: continue
+                if nv == 3 and (int(tv, 2) + k) % (6 if tier == "quick" else 2): continue
+                c = Case("c18_%d" % n_); n_ += 1
+                t = table_regs(c, ns[:nv], tv)
+                for st in "AMDE":
+                    for fi in FMT:
+                        for fo in FMT:
+                            if tier == "quick" and nv >= 2 and (FMT.index(fi) + FMT.index(fo) + int(tv, 2)) % 4: continue
+                            c.q("render %d %s %s %s" % (t, st, fi, fo))
+                c.q("display %d" % t)
+                dist["vars%d_names%d" % (nv, k)] += 1
+                cases.append(c.done("%d/%s/%d" % (nv, tv, k), True))
+    for ns in unclean:
+        for tv in ["0110", "1000"]:
+            c = Case("c18_%d" % n_); n_ += 1
+            t = table_regs(c, ns, tv)
+            for st in "AMDE": c.q("render %d %s W N" % (t, st))
+            c.q("display %d" % t)
+            dist["unclean_names_modelonly"] += 1
+            cases.append(c.done("unclean/%s/%s" % (ns, tv), False))
+    c = Case("c18_empty"); t = c.r("csvin str -")
+    for st in "AMDE": c.q("render %d %s N W" % (t, st))
+    c.q("display %d" % t); cases.append(c.done("empty", True)); dist["empty_table"] += 1
+    return {"cases": cases, "exhaustive": tier != "quick", "dist": dict(dist),
+            "rule": "every truth function of <= 3 variables over six name sets of differing display widths (ASCII, Latin with diacritics, CJK wide, combining mark, full-width, long, names with - _ +) x 4 styles x 16 Boolean formattings (quick: a quarter of the formattings for 2+ variables, every sixth 3-variable function): rendered text compared byte for byte with the model of tabled; cells read back from the REAL output by an independent splitter compared with header + one formatted row per domain point (the relation); Display = frameless / word / word; names with blanks, line breaks, empty or border glyphs compared with the model only; non-trivial = clean names; distinct = (function, name set)"}
+
+
+GENERATORS.update({"C16": gen_C16, "C17": gen_C17, "C18": gen_C18})
